@@ -1,5 +1,5 @@
 // c02: drives the real js.Minifier for property C02 (identifier shortening).
-// Input : ndjson cases {"id":n,"src":"<program text>"}
+// Input : ndjson cases {"id":n,"src":"<program text>","ver":<js.Minifier.Version, 0 = latest>}
 // Output: ndjson, one line per case:
 //   {"id":n,"src":..,"keep":<output with KeepVarNames=true>,"ren":<output with KeepVarNames=false>,
 //    "errk":<error text or "">,"errr":<error text or "">,"panic":bool}
@@ -20,11 +20,13 @@ import (
 type Case struct {
 	ID  int    `json:"id"`
 	Src string `json:"src"`
+	Ver int    `json:"ver"` // js.Minifier.Version (0 = latest); the renamer's input depends on it (catch binding removal)
 }
 
 type Event struct {
 	ID    int    `json:"id"`
 	Src   string `json:"src"`
+	Ver   int    `json:"ver"`
 	Keep  string `json:"keep"`
 	Ren   string `json:"ren"`
 	ErrK  string `json:"errk"`
@@ -33,9 +35,9 @@ type Event struct {
 	Msg   string `json:"msg,omitempty"`
 }
 
-func minifyOnce(src string, keep bool) (string, string) {
+func minifyOnce(src string, keep bool, ver int) (string, string) {
 	m := minify.New()
-	o := &js.Minifier{KeepVarNames: keep}
+	o := &js.Minifier{KeepVarNames: keep, Version: ver}
 	var w bytes.Buffer
 	// a fresh copy of the input for every call: the parser works in place on the caller's buffer
 	in := bytes.NewBufferString(src)
@@ -46,10 +48,10 @@ func minifyOnce(src string, keep bool) (string, string) {
 }
 
 func run(c Case) Event {
-	ev := Event{ID: c.ID, Src: c.Src}
+	ev := Event{ID: c.ID, Src: c.Src, Ver: c.Ver}
 	ev.Panic, ev.Msg = lib.Guard(func() {
-		ev.Keep, ev.ErrK = minifyOnce(c.Src, true)
-		ev.Ren, ev.ErrR = minifyOnce(c.Src, false)
+		ev.Keep, ev.ErrK = minifyOnce(c.Src, true, c.Ver)
+		ev.Ren, ev.ErrR = minifyOnce(c.Src, false, c.Ver)
 	})
 	return ev
 }
